@@ -33,7 +33,8 @@ RULE = ('histories over {add, remove, reset, run, compile} x 3 plugins x 2 '
         'length 40; compile_script, and assemble / parse_comptime called as '
         'the docs show them (macro table omitted). distinct = by history; '
         'non-trivial = >= 2 entries live in one scope at some point, or a run '
-        '/ probe after a remove or reset')
+        '/ probe after a remove or reset'
+        ' [plus a third, application-made plugin scope (absent until the first add; plugin histories strided at the longest length), aliases probed in ten block positions, CHECK_TEMPLATE / SIGN / CHECK_SIG / CHECK_MULTISIG under default flags firing exactly the active extensions, caller-dictionary monitoring, a falsy contract, a bound-method plugin]')
 ASSUMPTIONS = [
     'registries are process-global; the harness clears them between '
     'histories through their own containers and re-validates every violation '
